@@ -118,6 +118,11 @@ def judge(case, run, answers, serial_cache):
     n = len(case['threads'])
     L = locked.machine_lock_id(case)
     replay = dict(case, schedule=run.schedule)
+    if st == 'hang':
+        # a step that did not come back within the watchdog: confirm with a longer one before calling it a hang
+        again = locked.Run(case).run(threads.ListPolicy(run.schedule), watchdog=40.0)
+        if again.ctl.status != 'hang':
+            raise common.MachineryError('watchdog fired on a step that completes when replayed (machine overloaded?)')
     if st in ('deadlock', 'hang', 'too-long'):
         fails.append(('monitor', st, {'events_tail': ev[-12:], 'blocked': [b.cid if b else None for b in run.ctl.blocked_on]}, None))
     # correspondence with the model: same schedule, same programs → same events
